@@ -4,8 +4,8 @@ cd /verif || exit 3
 tier="${1:-quick}"
 for p in $(python3 -c "import json;print(' '.join(c['property_id'] for c in json.load(open('MANIFEST.json'))['checks']))"); do
   s=$(date +%s)
-  ./vcheck "$p" "$tier" > "/tmp/runall_$p.log" 2>&1
+  timeout 5400 ./vcheck "$p" "$tier" -evidence "/tmp/ev_${tier}_$p.json" > "/tmp/runall_${tier}_$p.log" 2>&1
   rc=$?
   e=$(date +%s)
-  echo "$p rc=$rc $(($e-$s))s $(grep -c '^VIOLATION' /tmp/runall_$p.log) violations $(grep -c '^KNOWN-FINDING' /tmp/runall_$p.log) known"
+  echo "$p rc=$rc $(($e-$s))s $(grep -c '^VIOLATION' /tmp/runall_${tier}_$p.log) violations $(grep -c '^KNOWN-FINDING' /tmp/runall_${tier}_$p.log) known"
 done
